@@ -11,7 +11,7 @@ CONSTANTS
   Bug = "none"
   Wes = {TRUE, FALSE}
   Masks = {0, 1}
-  Flush = TRUE
+  Flush = FALSE
   Stall = TRUE
 INVARIANTS ReqOK FinalOK TypeOK
 CHECK_DEADLOCK FALSE
